@@ -581,7 +581,9 @@ def c12_tie(ctx, tie_fail):
     """sanitizer sweep: every stream runs the real code under ASan + UBSan + ENABLE_ASSERT; the quick tier leaves the two
     slowest streams (count, cli - both run by C04/C09/C16 on every change anyway) to the thorough tier"""
     fs = [("iter", iter_tie), ("iterc", streams.ITERC.tie), ("store", streams.STORE.tie), ("print", streams.PRINT.tie),
-          ("calc", streams.CALC.tie), ("wheel", streams.WHEEL.tie), ("cross", streams.CROSS.tie)]
+          ("calc", streams.CALC.tie), ("wheel", streams.WHEEL.tie), ("cross", streams.CROSS.tie),
+          # memory errors on the exception paths: the k-th allocation of every workload fails (ASan + ledger)
+          ("fiter", fiter_tie), ("wl", wl_tie)]
     if ctx.tier != "quick":
         fs += [("count", count_tie), ("cli", cli_tie), ("segment", segment_tie), ("nth", streams.NTH.tie), ("multi", streams.MULTI.tie)]
     return combine(*fs)(ctx, tie_fail)
